@@ -78,11 +78,10 @@ package ocirequest
 // ---------------------------------------------------------------------------
 // C04 / C01: the Content-Range codec. RangeString writes the half-open Go
 // range [start, end) in the inclusive wire form; ParseRange reads it back.
-// The lemma is over the real bodies of both functions (executed symbolically
-// as specification functions; itoa/atoi are the decimal printer and parser as
-// mutually inverse uninterpreted functions).
-//@ lemma rangeCodecRoundTrip(start int64, end int64) =
-//@   0 <= start && start <= end ==>
-//@     ParseRange(RangeString(start, end)).0 == start && ParseRange(RangeString(start, end)).1 == end && ParseRange(RangeString(start, end)).2
+// The round trip is a postcondition of RangeString over the real body of
+// ParseRange (executed symbolically as a specification function; itoa/atoi
+// are the decimal printer and parser as mutually inverse uninterpreted
+// functions).
 //@ func RangeString
+//@   pure
 //@   ensures[round-trip] 0 <= start && start <= end ==> ParseRange(result).0 == start && ParseRange(result).1 == end && ParseRange(result).2
